@@ -28,7 +28,7 @@ PROFILE = {
     "C01": dict(),
     "C02": dict(),
     "C03": dict(min_tasks=3),
-    "C04": dict(),
+    "C04": dict(p_res_absence=0.45),
     "C06": dict(),
     "C07": dict(),
     "C13": dict(min_tasks=2, two_parents=0.25),
@@ -44,7 +44,7 @@ def pick_variant(prop, rng, scale=1.0):
               ("edits", 0.08 if prop in ("C07", "C13", "C14") else 0.0),
               ("reversed", 0.06 if prop == "C07" else 0.0),   # reverse_log_information() after the run, then the cost passes
               ("json_resume", 0.08 if prop == "C13" else 0.06),   # simulate(max_time=k), write/read JSON, resume the restored project
-              ("backward_first", 0.10 if prop == "C13" else 0.05)]  # backward_simulate(), then a monitored simulate() on the same objects
+              ("backward_first", 0.10 if prop in ("C13", "C01", "C06") else 0.05)]  # backward_simulate(), then a monitored simulate() on the same objects
     acc = 0.0
     for name, share in shares:
         acc += share * scale
@@ -82,7 +82,9 @@ def make_case(prop, seed, i, tier):
         if rng.random() < 0.4:
             spec["sim"]["absence"] = G._absence(rng, horizon=10)
             spec["sim"]["auto_flag"] = rng.random() < 0.5
-        return dict(prop=prop, i=i, source="shape-chain", spec=spec)
+        variant = pick_variant(prop, rng) if rng.random() < 0.5 else "single"
+        return dict(prop=prop, i=i, source="shape-chain" + ("+" + variant if variant != "single" else ""), spec=spec,
+                    variant=variant, vseed=rng.randrange(10 ** 9))
     kw = dict(PROFILE[prop])
     if big:
         kw["max_tasks"] = 14 if rng.random() < 0.3 else 8
